@@ -469,7 +469,13 @@ pub fn respell(frame: &str, choices: &[u8]) -> String {
         }
         if in_string {
             match next() % 8 {
-                7 => out.push_str(&format!("\\u{:04x}", ch as u32)),
+                7 => {
+                    // JSON escapes are UTF-16 code units: characters beyond the BMP need a surrogate pair
+                    let mut units = [0u16; 2];
+                    for u in ch.encode_utf16(&mut units) {
+                        out.push_str(&format!("\\u{:04x}", u));
+                    }
+                }
                 6 if ch == '/' => out.push_str("\\/"),
                 _ => out.push(ch),
             }
